@@ -15,7 +15,11 @@ pub enum Tok {
     Op(&'static str), // binary operator names as in expr::BINOPS, or "minus" (ambiguous), "tilde", "not"
     LParen,
     RParen,
+    Comma,
+    Kw(&'static str),
 }
+
+pub const KEYWORDS: &[&str] = &["SELECT", "FROM", "WHERE", "INNER", "LEFT", "JOIN", "ON", "INSERT", "INTO", "VALUES", "UPDATE", "SET", "DELETE"];
 
 pub fn lex(s: &str) -> Option<Vec<Tok>> {
     let cs: Vec<char> = s.chars().collect();
@@ -23,7 +27,7 @@ pub fn lex(s: &str) -> Option<Vec<Tok>> {
     let mut out: Vec<Tok> = vec![];
     let prefix_pos = |out: &Vec<Tok>| match out.last() {
         None => true,
-        Some(Tok::Op(_)) | Some(Tok::LParen) => true,
+        Some(Tok::Op(_)) | Some(Tok::LParen) | Some(Tok::Comma) | Some(Tok::Kw(_)) => true,
         _ => false,
     };
     while i < cs.len() {
@@ -39,6 +43,11 @@ pub fn lex(s: &str) -> Option<Vec<Tok>> {
         }
         if c == ')' {
             out.push(Tok::RParen);
+            i += 1;
+            continue;
+        }
+        if c == ',' {
+            out.push(Tok::Comma);
             i += 1;
             continue;
         }
@@ -80,7 +89,10 @@ pub fn lex(s: &str) -> Option<Vec<Tok>> {
                 "NOT" => out.push(Tok::Op("not")),
                 "AND" => out.push(Tok::Op("and")),
                 "OR" => out.push(Tok::Op("or")),
-                _ => out.push(Tok::Ident(t)),
+                u => match KEYWORDS.iter().find(|k| **k == u) {
+                    Some(k) => out.push(Tok::Kw(k)),
+                    None => out.push(Tok::Ident(t)),
+                },
             }
             i = j;
             continue;
@@ -195,4 +207,231 @@ pub fn read_expr(text: &str) -> Option<E> {
         return None;
     }
     Some(e)
+}
+
+// ------------------------------------------------------------------------------------
+// queries (grammar rules QuerySelect / QueryInsert / QueryUpdate / QueryDelete)
+
+use crate::refdb::{Sel, Q};
+
+impl Parser {
+    fn kw(&mut self, k: &str) -> Option<()> {
+        match self.peek()? {
+            Tok::Kw(x) if *x == k => {
+                self.pos += 1;
+                Some(())
+            }
+            _ => None,
+        }
+    }
+    fn ident(&mut self) -> Option<String> {
+        match self.peek()?.clone() {
+            Tok::Ident(n) => {
+                self.pos += 1;
+                Some(n)
+            }
+            _ => None,
+        }
+    }
+    fn literal(&mut self) -> Option<V> {
+        let t = self.peek()?.clone();
+        self.pos += 1;
+        Some(match t {
+            Tok::Num(n) => V::Int(n),
+            Tok::Str(s) => V::Str(s),
+            Tok::Null => V::Null,
+            _ => return None,
+        })
+    }
+    /// Table2 = Ident | ( QuerySelect )
+    fn table2(&mut self) -> Option<Sel> {
+        if self.peek()? == &Tok::LParen {
+            self.pos += 1;
+            let s = self.select()?;
+            if self.peek()? != &Tok::RParen {
+                return None;
+            }
+            self.pos += 1;
+            Some(s)
+        } else {
+            Some(Sel { from: Q::Table(self.ident()?), cols: vec![], cond: None })
+        }
+    }
+    /// QuerySelect = SELECT ColumnList FROM Table (WHERE Expr)?
+    pub fn select(&mut self) -> Option<Sel> {
+        self.kw("SELECT")?;
+        let mut cols = vec![];
+        if self.peek()? == &Tok::Op("mul") {
+            self.pos += 1;
+        } else {
+            cols.push(self.ident()?);
+            while self.peek() == Some(&Tok::Comma) {
+                self.pos += 1;
+                cols.push(self.ident()?);
+            }
+        }
+        self.kw("FROM")?;
+        let first = self.table2()?;
+        let from = match self.peek() {
+            Some(Tok::Kw(j)) if *j == "INNER" || *j == "LEFT" => {
+                let is_left = *j == "LEFT";
+                self.pos += 1;
+                self.kw("JOIN")?;
+                let second = self.table2()?;
+                self.kw("ON")?;
+                let on = self.expr(0)?;
+                if is_left {
+                    Q::Left(Box::new(first), Box::new(second), on)
+                } else {
+                    Q::Inner(Box::new(first), Box::new(second), on)
+                }
+            }
+            _ => {
+                // a bare table, or a parenthesised select used as the table
+                if first.cols.is_empty() && first.cond.is_none() {
+                    first.from
+                } else {
+                    // SELECT ... FROM (SELECT ...): the query objects cannot express this
+                    return None;
+                }
+            }
+        };
+        let cond = if self.kw("WHERE").is_some() { Some(self.expr(0)?) } else { None };
+        Some(Sel { from, cols, cond })
+    }
+}
+
+/// literal-only subtrees evaluated (what the API's constructors do, and more: applied to both sides)
+pub fn fold(e: &E) -> E {
+    match e {
+        E::Lit(_) | E::Col(_) => e.clone(),
+        E::Un(op, a) => {
+            let a = fold(a);
+            if let E::Lit(_) = a {
+                if let Some(v) = E::Un(op, Box::new(a.clone())).ref_eval(&[]) {
+                    return E::Lit(v);
+                }
+            }
+            E::Un(op, Box::new(a))
+        }
+        E::Bin(op, a, b) => {
+            let a = fold(a);
+            let b = fold(b);
+            if let (E::Lit(_), E::Lit(_)) = (&a, &b) {
+                if let Some(v) = E::Bin(op, Box::new(a.clone()), Box::new(b.clone())).ref_eval(&[]) {
+                    return E::Lit(v);
+                }
+            }
+            E::Bin(op, Box::new(a), Box::new(b))
+        }
+    }
+}
+
+pub fn same_cond(a: &Option<E>, b: &Option<E>) -> bool {
+    match (a, b) {
+        (None, None) => true,
+        (Some(x), Some(y)) => fold(x) == fold(y),
+        _ => false,
+    }
+}
+
+pub fn same_select(a: &Sel, b: &Sel) -> bool {
+    a.cols == b.cols
+        && same_cond(&a.cond, &b.cond)
+        && match (&a.from, &b.from) {
+            (Q::Table(x), Q::Table(y)) => x == y,
+            (Q::Inner(l1, r1, e1), Q::Inner(l2, r2, e2)) | (Q::Left(l1, r1, e1), Q::Left(l2, r2, e2)) => {
+                same_select(l1, l2) && same_select(r1, r2) && fold(e1) == fold(e2)
+            }
+            _ => false,
+        }
+}
+
+pub fn read_select(text: &str) -> Option<Sel> {
+    let toks = lex(text)?;
+    let mut p = Parser { toks, pos: 0 };
+    let s = p.select()?;
+    if p.pos != p.toks.len() {
+        return None;
+    }
+    Some(s)
+}
+
+/// INSERT INTO t [VALUES (l, ...), ...]
+pub fn read_insert(text: &str) -> Option<(String, Vec<Vec<V>>)> {
+    let toks = lex(text)?;
+    let mut p = Parser { toks, pos: 0 };
+    p.kw("INSERT")?;
+    p.kw("INTO")?;
+    let t = p.ident()?;
+    let mut rows = vec![];
+    if p.kw("VALUES").is_some() {
+        loop {
+            if p.peek()? != &Tok::LParen {
+                return None;
+            }
+            p.pos += 1;
+            let mut row = vec![p.literal()?];
+            while p.peek() == Some(&Tok::Comma) {
+                p.pos += 1;
+                row.push(p.literal()?);
+            }
+            if p.peek()? != &Tok::RParen {
+                return None;
+            }
+            p.pos += 1;
+            rows.push(row);
+            if p.peek() == Some(&Tok::Comma) {
+                p.pos += 1;
+            } else {
+                break;
+            }
+        }
+    }
+    if p.pos != p.toks.len() {
+        return None;
+    }
+    Some((t, rows))
+}
+
+/// UPDATE t SET c = l, ... [WHERE e]
+pub fn read_update(text: &str) -> Option<(String, Vec<(String, V)>, Option<E>)> {
+    let toks = lex(text)?;
+    let mut p = Parser { toks, pos: 0 };
+    p.kw("UPDATE")?;
+    let t = p.ident()?;
+    p.kw("SET")?;
+    let mut ups = vec![];
+    loop {
+        let c = p.ident()?;
+        if p.peek()? != &Tok::Op("eq") {
+            return None;
+        }
+        p.pos += 1;
+        ups.push((c, p.literal()?));
+        if p.peek() == Some(&Tok::Comma) {
+            p.pos += 1;
+        } else {
+            break;
+        }
+    }
+    let cond = if p.kw("WHERE").is_some() { Some(p.expr(0)?) } else { None };
+    if p.pos != p.toks.len() {
+        return None;
+    }
+    Some((t, ups, cond))
+}
+
+/// DELETE FROM t [WHERE e]
+pub fn read_delete(text: &str) -> Option<(String, Option<E>)> {
+    let toks = lex(text)?;
+    let mut p = Parser { toks, pos: 0 };
+    p.kw("DELETE")?;
+    p.kw("FROM")?;
+    let t = p.ident()?;
+    let cond = if p.kw("WHERE").is_some() { Some(p.expr(0)?) } else { None };
+    if p.pos != p.toks.len() {
+        return None;
+    }
+    Some((t, cond))
 }
